@@ -222,6 +222,9 @@ def handle4 (op : String) (a obs : List String) : Option Verdict :=
       if recvd.all (okPayloads.contains ·) then s!"recv={field obs "recv"}" else
         "recv=" ++ (if okPayloads.isEmpty then "-" else ",".intercalate okPayloads)]
     let prop := check [("no_trap", !isTrap obs),
+      -- every further connection of the run reaches the same maximum once its path MTU estimate
+      -- has caught up (the harness waits up to 2 s for it): a value that stays behind is stale
+      ("advertised_maximum_follows_the_transport_limit", !(field obs "err").startsWith "max_differs"),
       ("max_is_quic_limit_minus_header_or_absent", field obs "max" == (match quicMax with
         | none => "none" | some q => if q < hdr.length then "none" else toString (q - hdr.length))),
       ("too_large_iff_longer_than_max", sends.all fun s =>
